@@ -510,6 +510,8 @@ type repGun struct {
 	rng       *rand.Rand
 	inst      int
 	shotDelay time.Duration
+	stallAt   int64 // the stallAt-th shot of the run takes stallFor
+	stallFor  time.Duration
 }
 
 type engState struct {
@@ -531,6 +533,9 @@ func (g *repGun) Shoot(core.Ammo) {
 		time.Sleep(g.shotDelay)
 	}
 	id := g.st.seq.Add(1)
+	if g.stallAt > 0 && int64(id) == g.stallAt {
+		time.Sleep(g.stallFor)
+	}
 	s, w := makeSample(g.rng, id, fmt.Sprintf("i%d", g.inst))
 	g.st.mu.Lock()
 	g.st.wants = append(g.st.wants, w)
@@ -549,6 +554,11 @@ type engCase struct {
 	// Discard > 0: discard_overflow on and a const schedule of Tokens tokens per second for 1 s that
 	// was started Discard ms ago, so the first tokens are ≥ 2 s late (discarded), the rest are fired.
 	Discard int `json:"discard_prestart_ms,omitempty"`
+	// TailStallMs > 0: discard_overflow on, a const schedule of Tokens per second for 1 s started
+	// now, and the shot number Tokens/5 takes TailStallMs (> 3 s): every request after it is more
+	// than 2 s late, so the run ENDS in a burst of discarded requests — the last things reported
+	// before the aggregator is told to stop.
+	TailStallMs int `json:"tail_stall_ms,omitempty"`
 	// Ammo > 0: the run ends because the ammo runs out (Ammo items, per-instance unlimited RPS) while
 	// the startup profile — Instances at once, then 10 more per second for RampMs — is still
 	// releasing instances; every second gun is slow, so shots are in flight at that moment.
@@ -590,6 +600,15 @@ func engineOnce(res *vkit.Result, c engCase) {
 		shared.Start(time.Now().Add(-time.Duration(c.Discard) * time.Millisecond))
 		pool.NewRPSSchedule = func() (core.Schedule, error) { return shared, nil }
 		pool.DiscardOverflow = true
+	}
+	if c.TailStallMs > 0 {
+		shared := schedule.NewConst(float64(c.Tokens), time.Second)
+		pool.NewRPSSchedule = func() (core.Schedule, error) { return shared, nil }
+		pool.DiscardOverflow = true
+		pool.NewGun = func() (core.Gun, error) {
+			return &repGun{st: st, rng: rand.New(rand.NewSource(c.Seed + gunSeq.Add(1))), shotDelay: time.Duration(c.ShotUs) * time.Microsecond,
+				stallAt: int64(c.Tokens / 5), stallFor: time.Duration(c.TailStallMs) * time.Millisecond}, nil
+		}
 	}
 	eng := engine.New(vkit.NopLog(), vkit.NewMetrics(), engine.Config{Pools: []engine.InstancePoolConfig{pool}})
 	ctx, cancel := context.WithCancel(context.Background())
@@ -637,7 +656,7 @@ ended:
 		if rerr != nil {
 			res.Violate("C06/engine/run-error", fmt.Sprintf("normal run returned %v", rerr), c)
 		}
-		if c.Discard > 0 {
+		if c.Discard > 0 || c.TailStallMs > 0 {
 			// every token is one line: a shot line of the gun, or a 'discarded' line with net code 777
 			disc := 0
 			var shots []phoutRec
@@ -1149,6 +1168,20 @@ func main() {
 	// overload: tokens of the first 1.2 s of a 3.2 s-old schedule are discarded while guns keep acquiring samples
 	engineOnce(res, engCase{Instances: 6, Tokens: 3000, ShotUs: 200, Queue: 4096, Discard: 3200, Seed: 33})
 	engineOnce(res, engCase{Instances: 2, Tokens: 800, ShotUs: 50, Queue: 64, Discard: 2600, Seed: 34})
+	// the run ends in a burst of discarded requests (one stalled shot puts the rest > 2 s behind)
+	{
+		var wg sync.WaitGroup
+		// 40 runs at once: the machine is busy at the moment the bursts begin, which is when a
+		// report that is not made before the instance returns would be left behind
+		for i := 0; i < 40; i++ {
+			wg.Add(1)
+			go func(i int) {
+				defer wg.Done()
+				engineOnce(res, engCase{Instances: 1 + i%4/3, Tokens: 300 + 100*(i%16), ShotUs: 0, Queue: []int{4096, 16, 1}[i%3], TailStallMs: 3200, Seed: int64(60 + i)})
+			}(i)
+		}
+		wg.Wait()
+	}
 	// the ammo runs out while instances are still being started and slow shots are in flight
 	for i, n := 0, vkit.N(12, 120); i < n; i++ {
 		engineOnce(res, engCase{Instances: 2 + rng.Intn(5), Ammo: 4 + rng.Intn(60), ShotUs: 500 + rng.Intn(4000), Queue: []int{1, 64, 4096}[rng.Intn(3)], RampMs: 2000, Seed: rng.Int63()})
